@@ -5,6 +5,8 @@
 package main
 
 import (
+	"crypto/ed25519"
+	"crypto/rand"
 	"crypto/x509"
 	"net"
 	"strings"
@@ -202,12 +204,16 @@ func init() { vRunners["C01"] = runC01 }
 
 func runC01(t *testing.T, cases []map[string]interface{}, ev *vEvents) {
 	const nw = 16
-	type pair struct{ open, sealed *vWorld }
+	type pair struct{ open, sealed, half *vWorld }
 	worlds := make([]pair, nw)
 	for i := range worlds {
 		o := newWorld(vWorldOpts{NoDB: true})
 		s := newWorld(vWorldOpts{NoDB: true, Sealed: true})
-		for _, w := range []*vWorld{o, s} {
+		// an unseal attempt that loaded the Ed25519 CA key and then failed on the main key: still sealed
+		h := newWorld(vWorldOpts{NoDB: true, Sealed: true})
+		h.st.Ed25519Signer = vEdKey
+		h.pool, h.st.ClientCAPool, h.st.caCertDer = o.pool, o.pool, nil
+		for _, w := range []*vWorld{o, s, h} {
 			w.st.Config.Base.AutomationUsers = []string{"svc"}
 			w.st.Config.DenyTrustData.KeyDenyFPsshSha256 = vDenyList()
 		}
@@ -215,8 +221,11 @@ func runC01(t *testing.T, cases []map[string]interface{}, ev *vEvents) {
 		s.pool = o.pool
 		s.st.ClientCAPool = o.pool
 		s.st.caCertDer = nil
-		worlds[i] = pair{o, s}
+		worlds[i] = pair{o, s, h}
 	}
+	edUser, _, err := ed25519.GenerateKey(rand.Reader)
+	vMust(err)
+	sshKeyEd := vSSHPub(edUser)
 	sshKey := vSSHPub(&vUserRSA.PublicKey)
 	pemKey := vPEMPub(&vUserRSA.PublicKey)
 	vParallel(nw, len(cases), func(wk, i int) {
@@ -225,6 +234,9 @@ func runC01(t *testing.T, cases []map[string]interface{}, ev *vEvents) {
 		sealed := vBool(c, "sealed")
 		if sealed {
 			w = worlds[wk].sealed
+			if vStr(c, "keyload") == "edonly" {
+				w = worlds[wk].half
+			}
 		}
 		w.st.Config.Base.AllowedAuthBackendsForCerts = vStrs(c["cfg"])
 		ctype := vStr(c, "ctype")
@@ -232,6 +244,9 @@ func runC01(t *testing.T, cases []map[string]interface{}, ev *vEvents) {
 			Form: map[string][]string{"duration": {"1h"}}}
 		if ctype == "ssh" {
 			q.PubKey = sshKey
+			if vStr(c, "keyload") == "edonly" {
+				q.PubKey = sshKeyEd
+			}
 		} else {
 			q.PubKey = pemKey
 		}
@@ -268,6 +283,7 @@ func runC01(t *testing.T, cases []map[string]interface{}, ev *vEvents) {
 	for _, p := range worlds {
 		p.open.Close()
 		p.sealed.Close()
+		p.half.Close()
 	}
 }
 
